@@ -89,6 +89,15 @@ DECLS = [
     {"k": "var", "name": "s"},
     {"k": "var", "name": "t"},
 ]
+# the same declarations with bounds that exclude the singular points (a bound is a promise about the model, not about where a
+# solver or a caller evaluates the callable: BFGS ignores bounds, x0 may sit on the boundary, bounds may be relaxed later)
+DECLS_LB = [dict(d, lb=0.25, ub=9.0) if d["name"] in ("x", "y", "a", "b", "c") else dict(d) for d in DECLS]
+
+
+def decls_of(item):
+    return DECLS_LB if item.get("decls") == "positive-lb" else DECLS
+
+
 REGULAR = [
     None,
     ["bin", "+", ["bin", "*", ["fn", "sin", ["var", "s"]], ["var", "t"]], ["bin", "**", ["var", "s"], ["raw", 2, "int"]]],
@@ -104,6 +113,7 @@ def info(tier):
     cells += ["norm2@origin|gradient", "norm2@origin|jacobian", "norm2@one-zero|gradient"]
     cells += [f"deep:{a}|{path}" for a in list(SCALAR_ATOMS) + list(VECTOR_ATOMS) for path in ("gradient", "jacobian", "hessian")]
     cells += [f"{c}|{path}" for c, _, _ in composite_items() for path in ("gradient", "jacobian", "hessian")]
+    cells += [f"bounded:{a}|{path}" for a in list(SCALAR_ATOMS) + list(VECTOR_ATOMS) for path in ("gradient", "jacobian", "hessian")]
     return {
         "level": LEVEL,
         "rule": "separable sums of singular atoms (17 scalar, 7 vectorised, L2 norm) with coefficients of both signs and a "
@@ -180,7 +190,8 @@ def run_item(rec, rng, item):
     from optyx.core import autodiff as AD
     from optyx.core import compiler as C
 
-    D = R.Decls(DECLS)
+    DEC = decls_of(item)
+    D = R.Decls(DEC)
     rec.case(item, nontrivial=True)
     point, shifted = {}, {}
     sing = {}  # var name -> (expect, coef)
@@ -253,7 +264,7 @@ def run_item(rec, rng, item):
         else:
             expected[i] = ("jet", float(j.g[i]))
 
-    b = B.Builder(DECLS)
+    b = B.Builder(DEC)
     try:
         ev, ee = b.S(node_v), b.S(node_e)
     except Exception as ex:
@@ -408,6 +419,14 @@ def composite_items():
         ("composite:1/(a-b)@a=b", ["bin", "/", one, ["bin", "-", a, b_]], {"a": 0.75, "b": 0.75}),
         ("composite:c/(a*a)@0", ["bin", "/", ["raw", 3.0, "float"], ["bin", "*", a, a]], {"a": 0.0}),
         ("composite:sum(x)/a@0", ["bin", "/", ["sum", x], a], {"a": 0.0, **{k: v + 1.0 for k, v in O4.items()}}),
+        ("composite:(sum x^2)^0.5@origin", ["bin", "**", ["sum", ["vpow", x, 2]], ["raw", 0.5, "float"]], O4),
+        ("composite:(sum x^2)^-0.5@origin", ["bin", "**", ["sum", ["vpow", x, 2]], ["raw", -0.5, "float"]], O4),
+        ("composite:(x.x)^1.5@origin", ["bin", "**", ["dot", x, x], ["raw", 1.5, "float"]], O4),
+        ("composite:a*(x.x)^-0.5@origin", ["bin", "*", a, ["bin", "**", ["dot", x, x], ["raw", -0.5, "float"]]], {"a": 1.5, **O4}),
+        ("composite:(sum x)^0.5@negative", ["bin", "**", ["sum", x], ["raw", 0.5, "float"]], {"x[0]": -1.0, "x[1]": -0.5, "x[2]": 0.25, "x[3]": -0.25}),
+        ("composite:(sum x)^-1@balanced", ["bin", "**", ["sum", x], ["raw", -1, "int"]], bal),
+        ("composite:qf^0.5@origin", ["bin", "**", ["qf", ["slice", x, 0, 2, None], [[2.0, 0.5], [0.5, 1.0]]], ["raw", 0.5, "float"]], O4),
+        ("composite:norm^-1@origin", ["bin", "**", ["norm", x, 2, "method"], ["raw", -1, "int"]], O4),
         ("composite:mean-log", ["bin", "/", ["sum", ["vfn", "log", x]], ["raw", 4.0, "float"]], O4),
     ]
 
@@ -485,6 +504,12 @@ def directed_items():
                 for coef in (1.0, -1.5):
                     items.append({"terms": [(coef, aname, "x", sidx)], "regular": (k + len(sidx)) % 4, "vrel": vrel,
                                   "cell": aname, "vec_cell": True})
+    # declared bounds that exclude the singular point: the callables must behave the same
+    for k, aname in enumerate(VECTOR_ATOMS):
+        for sidx in ((0,), (1, 3)):
+            items.append({"terms": [(1.0, aname, "x", sidx)], "regular": k % 2, "vrel": VRELS[k % 4], "cell": "bounded:" + aname, "vec_cell": False, "decls": "positive-lb"})
+    for k, aname in enumerate(SCALAR_ATOMS):
+        items.append({"terms": [(1.0, aname, "a", True), (2.0, "abs@0", "b", False)], "regular": 1, "vrel": VRELS[k % 4], "cell": "bounded:" + aname, "decls": "positive-lb"})
     # deep accumulations (iterative gradient / compiler): every atom, both positions
     for k, aname in enumerate(SCALAR_ATOMS):
         other = list(SCALAR_ATOMS)[(k + 3) % len(SCALAR_ATOMS)]
